@@ -249,7 +249,7 @@ func (r *Run) Finish(t *testing.T) {
 		"seed":        Seed(),
 		"level":       r.Level,
 		"coverage":    cov,
-		"assumptions": r.Assumptions,
+		"assumptions": append([]string{}, r.Assumptions...),
 		"wall_s":      time.Since(r.start).Seconds(),
 		"violations":  len(r.vorder),
 	}
